@@ -15,7 +15,7 @@ structure SplineState where
 def parseOrg? (s : String) : Option (Option Nat) :=
   if s == "-" then some none else s.toNat?.map some
 
-def splineStep (ds : DualState) (st : SplineState) (toks : List String) : Option (SplineState × String) :=
+partial def splineStep (ds : DualState) (st : SplineState) (toks : List String) : Option (SplineState × String) :=
   match toks with
   | "bsplev" :: x :: i :: k :: org :: _nt :: ts => do
     let x ← parseF? x; let i ← i.toNat?; let k ← k.toNat?; let org ← parseOrg? org
@@ -25,6 +25,11 @@ def splineStep (ds : DualState) (st : SplineState) (toks : List String) : Option
     let x ← parseF? x; let i ← i.toNat?; let k ← k.toNat?; let m ← m.toNat?; let org ← parseOrg? org
     let t ← parseFs? ts
     pure (st, fmtF (bspldnev t x m i k org))
+  | "basisrow" :: x :: k :: _nt :: ts => do
+    let x ← parseF? x; let k ← k.toNat?
+    let t ← parseFs? ts
+    let n := t.length - k
+    pure (st, "B " ++ fmtFs ((List.range n).map (fun i => bsplev t x k i k)))
   | "spline" :: id :: kind :: k :: _nt :: ts => do
     let id ← id.toNat?; let k ← k.toNat?
     let t ← parseFs? ts
@@ -52,6 +57,7 @@ def splineStep (ds : DualState) (st : SplineState) (toks : List String) : Option
       match s.csolve tau (ys.map Number.toDual2) ln rn lsq with
       | some s' => pure ({ st with sp := st.sp.insert id (.d2 s') }, "ok")
       | none => pure (st, "err")
+  | ["ppevpoly", id, m, x, _expected] => splineStep ds st ["ppev", id, m, x]
   | ["ppev", id, m, x] => do
     let id ← id.toNat?; let m ← m.toNat?
     let x ← parseNodeVal? ds x
